@@ -66,19 +66,44 @@ pub fn judge_assert_numbers(sh: &Shader, o: &Opts, out: &Out) -> Result<(), Stri
         }
         let name = &sh.structs[r.index].name;
         let (offs, size) = wgsl_numbers(sh, r.index);
-        let find = |prefix: &str| -> Option<u64> {
-            out.asserts.iter().find_map(|a| a.cond.strip_prefix(prefix).and_then(|rest| rest.strip_prefix("==")).and_then(|n| n.parse::<u64>().ok()))
+        // spelling-independent reading of `<path>size_of::<Name>() == N` / `<path>offset_of!(Name, f) == N`:
+        // any path prefix (std::mem, core::mem, ::core::mem, none) and either operand order
+        let norm = |cond: &str| -> String {
+            let mut c = cond.to_string();
+            for key in ["size_of::<", "offset_of!("] {
+                if let Some(i) = c.find(key) {
+                    // drop the path in front of the key (identifier characters and `::`)
+                    let start = c[..i].rfind(|ch: char| !(ch.is_alphanumeric() || ch == '_' || ch == ':')).map(|p| p + 1).unwrap_or(0);
+                    c.replace_range(start..i, "");
+                }
+            }
+            match c.split_once("==") {
+                Some((l, r)) if l.chars().all(|ch| ch.is_ascii_digit() || ch == '_') && !l.is_empty() => format!("{r}=={l}"),
+                _ => c,
+            }
         };
-        match find(&format!("std::mem::size_of::<{name}>()")) {
+        let conds: Vec<String> = out.asserts.iter().map(|a| norm(&a.cond)).collect();
+        let find = |prefix: &str| -> Option<u64> {
+            conds.iter().find_map(|c| c.strip_prefix(prefix).and_then(|rest| rest.strip_prefix("==")).and_then(|n| n.trim_end_matches(|ch: char| ch.is_alphabetic() || ch == '_').replace('_', "").parse::<u64>().ok()))
+        };
+        // If no assertion of this struct is written in a form this reader understands, the reader does
+        // not judge (the executed width decides from rustc's verdict and the executed offsets). If some
+        // are, the recognised form must be complete: a size and every member.
+        let size_key = format!("size_of::<{name}>()");
+        let any = find(&size_key).is_some() || offs.iter().any(|(f, _)| find(&format!("offset_of!({name},{})", expect::rid(f))).is_some());
+        if !any {
+            continue;
+        }
+        match find(&size_key) {
             Some(n) if n == size as u64 => {}
             Some(n) => return Err(format!("the size assertion of `{name}` expects {n}; the WGSL size of the struct is {size}")),
-            None => return Err(format!("no size assertion for host-shareable struct `{name}` (or not in the form size_of::<{name}>() == N)")),
+            None => return Err(format!("no size assertion for host-shareable struct `{name}` although its members have offset assertions")),
         }
         for (f, off) in offs {
-            match find(&format!("std::mem::offset_of!({name},{})", expect::rid(&f))) {
+            match find(&format!("offset_of!({name},{})", expect::rid(&f))) {
                 Some(n) if n == off as u64 => {}
                 Some(n) => return Err(format!("the offset assertion of `{name}.{f}` expects {n}; the WGSL offset of the member is {off}")),
-                None => return Err(format!("no offset assertion for `{name}.{f}`")),
+                None => return Err(format!("no offset assertion for `{name}.{f}` although the struct's other layout assertions are present")),
             }
         }
     }
